@@ -64,6 +64,7 @@ inductive Parsed where
   | skip
   | warn
   | plain          -- an unencrypted frame: a key exchange on a resumed session
+  | sendFault                  -- injected fault: the write of a caller's request failed (the request never entered the machine)
   | ackFault (ids : List Nat)  -- injected fault: the write of the acknowledgement naming these ids failed
   | storeFault (salt : Int)    -- injected fault: the session store refused to write this salt
   | bad (why : String)
@@ -73,7 +74,22 @@ def parseEvent (e : String) : Parsed :=
   | ["N", _] => .skip
   | ["C"] => .skip
   | ["P", _] => .plain
-  | ["V", cls] => if cls == "reconnect" || cls == "ackfail" || cls == "storefail" then .skip else .warn
+  -- the application's handler was called (the Go oracle counts these)
+  | ["H", _] => .skip
+  -- a plain-text frame written to the keyed session by the peer
+  | ["U", rest] =>
+    match splitN rest ':' 2 with
+    | [mid, d] =>
+      match mid.toNat?, parseDesc d with
+      | some mid, some m => .ev (.plain mid m)
+      | _, _ => .bad e
+    | _ => .bad e
+  -- the client's own keepalive ping (one per minute of a connection's life): not a caller's request; the Go oracle
+  -- checks its msg_id and seq_no against the rest of the outgoing stream
+  | ["K", _] => .skip
+  -- conn-broken: the connection could not be read any further and is replaced (the consequence of a lost
+  -- connection, event C, like "reconnect")
+  | ["V", cls] => if cls == "reconnect" || cls == "ackfail" || cls == "storefail" || cls == "conn-broken" then .skip else .warn
   | ["F", rest] =>
     match rest.splitOn ":" with
     | ["k", ids] => match (ids.splitOn "+").mapM (·.toNat?) with
@@ -82,6 +98,7 @@ def parseEvent (e : String) : Parsed :=
     | ["s", salt] => match salt.toInt? with
       | some x => .storeFault x
       | none => .bad e
+    | ["q", _] => .sendFault
     | _ => .bad e
   | ["W", s] => match s.toInt? with | some x => .ev (.store x) | none => .bad e
   | ["D", rest] =>
@@ -116,7 +133,9 @@ def parseEvent (e : String) : Parsed :=
 
 def replay (trace : String) : String :=
   let evs := if trace.isEmpty then [] else trace.splitOn ","
-  let rec go (s : St) (es : List String) (k : Nat) (warns : Nat) : String :=
+  -- `failed`: request writes that failed and whose call has not returned the write error yet. Such a request never
+  -- reached the wire: it is no event of the machine, and the error its call returns is no delivery
+  let rec go (s : St) (es : List String) (k : Nat) (warns : Nat) (failed : Nat := 0) : String :=
     match es with
     | [] =>
       if !quiescent s then
@@ -125,22 +144,28 @@ def replay (trace : String) : String :=
       else s!"ok w={warns}"
     | e :: rest =>
       match parseEvent e with
-      | .skip => go s rest (k + 1) warns
-      | .warn => go s rest (k + 1) (warns + 1)
+      | .skip => go s rest (k + 1) warns failed
+      | .warn => go s rest (k + 1) (warns + 1) failed
+      | .sendFault => go s rest (k + 1) warns (failed + 1)
       | .plain => s!"stuck@{k}:plaintext-frame-on-resumed-session"
       | .bad w => s!"unparsed@{k}:{w}"
       -- environment faults are events of the machine too (Ev.ackLost, Ev.storeLost)
       | .storeFault x =>
         match step s (.storeLost x) with
-        | some s' => go s' rest (k + 1) warns
+        | some s' => go s' rest (k + 1) warns failed
         | none => s!"stuck@{k}:{e}"
       | .ackFault ids =>
         match step s (.ackLost ids) with
-        | some s' => go s' rest (k + 1) warns
+        | some s' => go s' rest (k + 1) warns failed
         | none => s!"stuck@{k}:{e}"
+      | .ev (.deliver c v) =>
+        if failed > 0 && v.startsWith "err(sending_message" then go s rest (k + 1) warns (failed - 1)
+        else match step s (.deliver c v) with
+          | some s' => go s' rest (k + 1) warns failed
+          | none => s!"stuck@{k}:{e}"
       | .ev ev =>
         match step s ev with
-        | some s' => go s' rest (k + 1) warns
+        | some s' => go s' rest (k + 1) warns failed
         | none => s!"stuck@{k}:{e}"
   go {} evs 0 0
 
